@@ -6,7 +6,7 @@
    [sch] (openapi projection), [opts] (infer / prepend / AssociativeSequenceKeys) and [nonstr]
    (yaml.IsValueNonString) are universally quantified parameters. *)
 From KV Require Import Yaml.Walk Yaml.WalkProofs Yaml.WalkFields Yaml.Merge2 Yaml.Merge2Proofs
-     Yaml.Merge2Frame Yaml.Merge2Examples Corr.SchemaTable.
+     Yaml.Merge2Frame Yaml.Merge2Examples Corr.SchemaTable Yaml.Merge3 Yaml.Merge3Examples Yaml.WalkGenProofs Gen.WalkTables.
 
 (* merge2.Merge at the canonical fuel S(sum of depths) never runs out of fuel: for every schema, option
    set, patch and target the outcome is Ok / Err / Panic, never Diverge. *)
@@ -121,3 +121,43 @@ Theorem C04_walk_fields_fieldwise :
                      find_field k kvs' = fval nonstr r (find_field k kvs)).
 Proof. exact (@walk_fields_map). Qed.
 Print Assumptions C04_walk_fields_fieldwise.
+
+(* ---------- obligations over the tables regenerated from /repo (Gen/WalkTables.v) ---------- *)
+
+(* the model's directive key and directive spellings are the source's *)
+Theorem Gen_C04_smp_key : gen_smp_key = smp_key.
+Proof. exact gen_smp_key_ok. Qed.
+Print Assumptions Gen_C04_smp_key.
+
+Theorem Gen_C04_smp_directives :
+  map smp_of_value gen_smp_directives = [None; Some SmpReplace; Some SmpDelete; Some SmpMerge].
+Proof. exact gen_smp_directives_ok. Qed.
+Print Assumptions Gen_C04_smp_directives.
+
+(* every patch strategy of the builtin schema is one the model's has_merge_strategy understands *)
+Theorem Gen_C04_strategies :
+  forallb (fun r : row => str_in (row_strategy r) ["merge"; "merge,retainKeys"; "replace"]%string) gen_merge_lists = true.
+Proof. exact gen_strategies_ok. Qed.
+Print Assumptions Gen_C04_strategies.
+
+(* the multi-key lists (outside the single-merge-key domain of the property) are exactly these *)
+Theorem Gen_C04_multi_key_lists :
+  forallb (fun r : row =>
+             Nat.leb (List.length (row_keys r)) 1 ||
+             strs_eqb (row_keys r) ["containerPort"; "protocol"]%string ||
+             strs_eqb (row_keys r) ["port"; "protocol"]%string ||
+             strs_eqb (row_keys r) ["topologyKey"; "whenUnsatisfiable"]%string) gen_merge_lists = true.
+Proof. exact gen_multi_key_lists_ok. Qed.
+Print Assumptions Gen_C04_multi_key_lists.
+
+(* the schema used by the refutation witnesses is the source's *)
+Theorem Gen_C04_pod_containers :
+  existsb (row_eqb ("Pod", "v1", ["spec"; "containers"], "merge", ["name"])%string) gen_merge_lists = true.
+Proof. exact gen_pod_containers_ok. Qed.
+Print Assumptions Gen_C04_pod_containers.
+
+Theorem Gen_C04_assoc_keys :
+  o_assoc_keys kustomize_opts = gen_assoc_keys /\ o_assoc_keys kopts = gen_assoc_keys /\
+  o_assoc_keys Merge3Examples.iopts = gen_assoc_keys.
+Proof. exact gen_assoc_keys_ok. Qed.
+Print Assumptions Gen_C04_assoc_keys.
